@@ -143,6 +143,32 @@ Theorem C11_fault_safe_rekey : forall frepr wss f0 w1 w2 wr old nsp atomic plan,
 Proof. exact fault_safe_rekey_thm. Qed.
 Print Assumptions C11_fault_safe_rekey.
 
+(* The whole-assignment route `job.statepoint = nsp` through a handle opened BY ID that never read its state point
+   (state point cache miss; seeded trial C11-12): the protocol runs without the validating read that the other
+   routes perform first (Crash.op_prog_r ... true = the bare protocol).  Same guarantees, every crash point
+   and every fault plan without ENOENT. *)
+Theorem C11_crash_safe_assign : forall frepr wss f0 w1 w2 wr old nsp atomic g,
+  WInv frepr wss f0 -> In (w1 :: w2 :: wr) wss -> In old (job_dirs f0 (w1 :: w2 :: wr)) ->
+  old <> calc_id frepr nsp ->
+  get f0 (((w1 :: w2 :: wr) ++ [old]) ++ [TMPPFX ++ [] ++ SPF]) = None ->
+  is_jnull nsp = false ->
+  crash_states (op_prog_r frepr atomic true (KRekey (w1 :: w2 :: wr) old nsp)) f0 g ->
+  CInv frepr (KRekey (w1 :: w2 :: wr) old nsp) wss f0 g.
+Proof. exact crash_safe_assign_thm. Qed.
+Print Assumptions C11_crash_safe_assign.
+
+Theorem C11_fault_safe_assign : forall frepr wss f0 w1 w2 wr old nsp atomic plan,
+  WInv frepr wss f0 -> In (w1 :: w2 :: wr) wss -> In old (job_dirs f0 (w1 :: w2 :: wr)) ->
+  old <> calc_id frepr nsp ->
+  get f0 (((w1 :: w2 :: wr) ++ [old]) ++ [TMPPFX ++ [] ++ SPF]) = None ->
+  is_jnull nsp = false ->
+  (forall m, plan m <> Some ENOENT) ->
+  let o := KRekey (w1 :: w2 :: wr) old nsp in
+  let '(g, out) := run_fault plan 0 (op_prog_r frepr atomic true o) f0 in
+  CInv frepr o wss f0 g /\ (out = inl tt -> post_ok frepr o f0 g = true).
+Proof. exact fault_safe_assign_thm. Qed.
+Print Assumptions C11_fault_safe_assign.
+
 (* Job.remove / Job.clear under EVERY fault plan: a failing call has no effect, so the state is still the
    pre-state minus deletions below the job directory (plus the document rewrite): CInv *)
 Theorem C11_fault_safe_remove : forall frepr wss f0 ws i atomic plan,
@@ -220,6 +246,24 @@ Theorem C11_rekey_fault_restores_handle : forall frepr wss f0 w1 w2 wr old nsp,
       sp_value f0 (w1 :: w2 :: wr) old = Some v /\ (hs_sp h = None \/ hs_sp h = Some v).
 Proof. exact rekey_fault_restores_handle. Qed.
 Print Assumptions C11_rekey_fault_restores_handle.
+
+(* The same for `job.statepoint = nsp` through a handle that never loaded its state point (seeded trial C11-12:
+   a restore from the handle's cached state point does nothing for such a handle; the code re-reads the restored
+   FILE, so the provenance of the handle does not matter).  Call 0 = the parking of the state point file, call 1 =
+   the directory rename; with an occupied destination any call. *)
+Theorem C11_assign_fault_restores_handle : forall frepr wss f0 w1 w2 wr old nsp,
+  WInv frepr wss f0 -> In (w1 :: w2 :: wr) wss -> In old (job_dirs f0 (w1 :: w2 :: wr)) ->
+  old <> calc_id frepr nsp ->
+  get f0 (((w1 :: w2 :: wr) ++ [old]) ++ [SPT]) <> Some Dir ->
+  forall atomic k e, e <> ENOENT ->
+  k <= 1 \/ occupied frepr f0 w1 w2 wr nsp = true ->
+  exists f h x,
+    run_fault (single k e) 0 (as_obs frepr w1 w2 wr old nsp atomic) f0 = (f, inl (h, inr x)) /\
+    hs_ws h = w1 :: w2 :: wr /\ hs_id h = old /\
+    forall v, sp_value f (w1 :: w2 :: wr) old = Some v ->
+      sp_value f0 (w1 :: w2 :: wr) old = Some v /\ (hs_sp h = None \/ hs_sp h = Some v).
+Proof. exact assign_fault_restores_handle. Qed.
+Print Assumptions C11_assign_fault_restores_handle.
 
 (* the former failing input of known finding 4 as a regression witness: EIO at the parking of the state point
    file of {a: 1} -> {a: 5}, then sp["q"] = 9 through the same handle: memory = disk = {a: 1} after the error;
